@@ -173,8 +173,20 @@ func runTTHistory(c *fw.Ctx, r *rand.Rand, slots, clients, opsPer, hashesPerSlot
 	mask := uint64(slots - 1)
 	var hashes []board.ZobristHash
 	for s := 0; s < slots; s++ {
+		if r.Intn(2) == 0 {
+			for k := 0; k < hashesPerSlot; k++ {
+				hashes = append(hashes, board.ZobristHash(uint64(s)+uint64(k+1)*uint64(slots)*977))
+			}
+			continue
+		}
+		// relatives of one full-width hash that share the slot and most of their bits: an entry is only the
+		// asker's if the whole 64-bit hash matches (any shortened or folded comparison confuses some pair)
+		b := r.Uint64()&^mask | uint64(s)
+		d := (uint64(r.Uint32()) | 1<<20) &^ mask & 0xffffffff
+		rel := []uint64{b, b ^ (d<<32 | d), b ^ 1<<63, b ^ 1<<uint(32+r.Intn(31)), (b + d<<32) - d, b ^ (d << 32), b ^ 1<<uint(16+r.Intn(16))}
+		r.Shuffle(len(rel)-1, func(i, j int) { rel[i+1], rel[j+1] = rel[j+1], rel[i+1] })
 		for k := 0; k < hashesPerSlot; k++ {
-			hashes = append(hashes, board.ZobristHash(uint64(s)+uint64(k+1)*uint64(slots)*977))
+			hashes = append(hashes, board.ZobristHash(rel[k%len(rel)]))
 		}
 	}
 	var clock atomic.Int64
